@@ -1566,20 +1566,27 @@ func (s *lvalByFun) Less(i, j int) bool {
 	if s.err != nil {
 		return false
 	}
-	a, b := s.cells[i], s.cells[j]
-	// Functions are always copied when being invoked. But the arguments
-	// are not copied in general.
-	var expr *LVal
-	if s.keyfun == nil {
-		expr = SExpr([]*LVal{s.fun, a.Copy(), b.Copy()})
-	} else {
-		expr = SExpr([]*LVal{
-			s.fun,
-			SExpr([]*LVal{s.keyfun, a.Copy()}),
-			SExpr([]*LVal{s.keyfun, b.Copy()}),
-		})
+	// The predicate and key function receive copies of the elements, so they
+	// cannot disturb the cells being sorted.
+	//
+	// The elements are passed as ARGUMENTS.  Building (less a b) and handing
+	// it to Eval re-evaluated each element as program text, so sorting a list
+	// whose elements are lists or symbols -- (stable-sort < '((1 2) (3))
+	// length) -- called or looked up the elements instead of comparing them.
+	a, b := s.cells[i].Copy(), s.cells[j].Copy()
+	if s.keyfun != nil {
+		a = s.env.FunCall(s.keyfun, SExpr([]*LVal{a}))
+		if a.Type == LError {
+			s.err = a
+			return false
+		}
+		b = s.env.FunCall(s.keyfun, SExpr([]*LVal{b}))
+		if b.Type == LError {
+			s.err = b
+			return false
+		}
 	}
-	ok := s.env.Eval(expr)
+	ok := s.env.FunCall(s.fun, SExpr([]*LVal{a, b}))
 	if ok.Type == LError {
 		s.err = ok
 		return false
@@ -1648,23 +1655,21 @@ func builtinInsertSorted(env *LEnv, args *LVal) *LVal {
 	sortErr := Nil()
 	inCells := seqCells(list)
 	i := sort.Search(len(inCells), func(i int) bool {
-		var expr *LVal
-		if keyFun == nil {
-			expr = SExpr([]*LVal{p, item.Copy(), inCells[i].Copy()})
-		} else {
-			expr = SExpr([]*LVal{
-				p,
-				SExpr([]*LVal{
-					keyFun,
-					item.Copy(),
-				}),
-				SExpr([]*LVal{
-					keyFun,
-					inCells[i].Copy(),
-				}),
-			})
+		// Arguments, not expressions -- see lvalByFun.Less.
+		a, b := item.Copy(), inCells[i].Copy()
+		if keyFun != nil {
+			a = env.FunCall(keyFun, SExpr([]*LVal{a}))
+			if a.Type == LError {
+				sortErr = a
+				return false
+			}
+			b = env.FunCall(keyFun, SExpr([]*LVal{b}))
+			if b.Type == LError {
+				sortErr = b
+				return false
+			}
 		}
-		ok := env.Eval(expr)
+		ok := env.FunCall(p, SExpr([]*LVal{a, b}))
 		if ok.Type == LError {
 			sortErr = ok
 			return false
